@@ -104,7 +104,10 @@ class TinySig:
         n = self.n
         Signature = self.ecdsa.Signature
         if op == "verrow":
-            pk = self.pubkey(d, via)
+            try:
+                pk = self.pubkey(d, via)
+            except Exception as e:            # building Q = d*G / the key object failed: every verdict of the row is "raised"
+                return {"out": [2] * (2 * n + 1), "exc": "key:" + type(e).__name__}
             row, excs = [], set()
             for s in range(2 * n + 1):
                 try:
@@ -195,12 +198,18 @@ def _oracle_curve(args):
     files = eclib.Files(os.path.join(wd, cv.name))
     n = int(cv.order)
     nb = n.bit_length()
-    L = cv.baselen
+    L = (nb + 7) // 8
     d, d2 = r.randrange(1, n), r.randrange(1, n)
-    sk, sk2 = keys.SigningKey.from_secret_exponent(d, cv), keys.SigningKey.from_secret_exponent(d2, cv)
-    vk, vk2 = sk.verifying_key, sk2.verifying_key
-    privf, pubf, pub2f = files.put(sk.to_der(), "priv"), files.put(vk.to_der(), "pub"), files.put(vk2.to_der(), "pub2")
+    # the key files OpenSSL works with do not come from the library: private key encoded here, public keys derived by OpenSSL
+    privf = files.put(eclib.priv_der_nopub(cv, d), "priv")
+    pubf, pub2f = files.put(eclib.ossl_pub_raw(cv, d)[1], "pub"), files.put(eclib.ossl_pub_raw(cv, d2)[1], "pub2")
     evs = []            # events; "ref" may be a pending OpenSSL query
+    try:
+        sk, sk2 = keys.SigningKey.from_secret_exponent(d, cv), keys.SigningKey.from_secret_exponent(d2, cv)
+        vk, vk2 = sk.verifying_key, sk2.verifying_key
+    except Exception as e:
+        return cv.name, [{"tid": 0, "op": "flags", "what": "%s key generation d=%d raised %s" % (cv.name, d, eclib.mro(e)), "ctx": "", "zero": 0,
+                          "lib": [0], "ref": [], "cls": type(e).__name__}], 2
     queries = {}        # (hname, which pub, der sig, msg) -> verdict
 
     def q_verify(hname, sig_der, msg, pub=None):
@@ -239,13 +248,14 @@ def _oracle_curve(args):
     if thorough:
         msgs["sha224"] = b""
     osigs = dict(zip(HASHES, eclib.pmap(lambda h: eclib.ossl_sign(h, privf, msgs[h]), HASHES, workers=5)))
-    ncalls = len(HASHES)
+    ncalls = len(HASHES) + 2
 
     ENC = [("der", util.sigencode_der, util.sigdecode_der), ("der_canonize", util.sigencode_der_canonize, util.sigdecode_der),
            ("string", util.sigencode_string, util.sigdecode_string), ("string_canonize", util.sigencode_string_canonize, util.sigdecode_string),
            ("strings", util.sigencode_strings, util.sigdecode_strings), ("strings_canonize", util.sigencode_strings_canonize, util.sigdecode_strings)]
     det_k = []
-    for hname in HASHES:
+
+    def per_hash(hname):
         H = getattr(hashlib, hname)
         msg = msgs[hname]
         all_bits = thorough and hname in ("sha256", "sha512")
@@ -354,6 +364,15 @@ def _oracle_curve(args):
             lib, cls = b"\xff", type(e).__name__
         det_k.append((hname, msg, k, h1, lib, cls))
 
+    for hname in HASHES:
+        try:
+            per_hash(hname)
+        except MachineryError:
+            raise
+        except Exception as e:          # a library call outside the recorded verdicts failed: a rejected event, not a crash
+            ev("flags", "%s: the library raised %s: %s while producing the events of this hash" % (hname, eclib.mro(e), str(e)[:200]), [0], [],
+               type(e).__name__)
+
     # ---- OpenSSL: k*G for the deterministic nonces, then all verification queries
     kx = eclib.pmap(lambda t: eclib.ossl_pub_raw(cv, t[2])[0], det_k, workers=5)
     ncalls += len(det_k)
@@ -379,6 +398,96 @@ def _oracle_curve(args):
     return cv.name, evs, ncalls
 
 
+# ====================================================================== histories (state kept by the library between calls)
+def _oracle_history(args):
+    """One fresh process: every shipped curve in turn (curves of equal byte length but different bit length are neighbours),
+    then all of them again in the opposite direction, with the SAME private scalar and message on every curve and several
+    hashes: RFC 6979 signatures rebuilt independently, signatures with a given nonce and OpenSSL-made signatures verified.
+    Run twice (order 0 / 1), so that every pair of curves is met in both orders as first users of any process-wide memo."""
+    tier, wd, order = args
+    from ..common import repo_on_path
+    repo_on_path()
+    from register_crypto_plugin.ecdsa import keys, util
+    thorough = tier == "thorough"
+    r = rng("c18/history/%d" % order)
+    files = eclib.Files(os.path.join(wd, "hist%d" % order))
+    blen = lambda c: (int(c.order).bit_length() + 7) // 8
+    cvs = sorted(eclib.shipped(), key=lambda c: (blen(c), int(c.order).bit_length(), c.name), reverse=bool(order))
+    seq = cvs + cvs[::-1]
+    hashes = HASHES if thorough else ["sha1", "sha256", "sha512"]
+    if order:
+        hashes = hashes[::-1]
+    d = r.randrange(2, min(int(c.order) for c in cvs))
+    msg = bytes(r.randrange(256) for _ in range(11))
+    evs, det, ver = [], [], []
+    pub = {c.name: files.put(eclib.ossl_pub_raw(c, d)[1], "pub") for c in cvs}
+    priv = {c.name: files.put(eclib.priv_der_nopub(c, d), "priv") for c in cvs}
+    osig = dict(zip([(c.name, h) for c in cvs for h in hashes],
+                    eclib.pmap(lambda t: eclib.ossl_sign(t[1], priv[t[0]], msg), [(c.name, h) for c in cvs for h in hashes], workers=8)))
+    ncalls = 2 * len(cvs) + len(osig)
+
+    def ev(op, what, lib, ref, cls="", ctx="verify"):
+        e = {"tid": 0, "op": op, "what": "history%d %s" % (order, what), "ctx": ctx, "zero": 0, "lib": lib, "ref": ref, "cls": cls}
+        evs.append(e)
+        return e
+
+    for step, cv in enumerate(seq):
+        n = int(cv.order)
+        L = blen(cv)
+        for hname in hashes:
+            H = getattr(hashlib, hname)
+            tag = "step %d %s %s d=%d msg=%s " % (step, cv.name, hname, d, msg.hex())
+            try:
+                sk = keys.SigningKey.from_secret_exponent(d, cv)
+                vk = sk.verifying_key
+                rl, sl = sk.sign_deterministic(msg, hashfunc=H, sigencode=lambda r_, s_, o_: (r_, s_))
+                lib, cls = list(int(rl).to_bytes(L, "big") + int(sl).to_bytes(L, "big")), ""
+                dsig = eclib.der_sig(int(rl), int(sl))
+            except Exception as e:
+                lib, cls, dsig, vk = [255], type(e).__name__, None, None
+            h1 = H(msg).digest()
+            k = rfc6979_k(n, d, hname, h1)
+            det.append((ev("eq", tag + "sign_deterministic = independent RFC 6979 nonce k=%d + OpenSSL k*G" % k, lib, None, cls, ctx="rfc6979"), cv, k, h1))
+            if dsig is not None:
+                ver.append((ev("accept", tag + "sign_deterministic -> library and OpenSSL verify", "accept", None), hname, cv, dsig, vk, H, util.sigdecode_der))
+            try:
+                sig2 = sk.sign(msg, hashfunc=H, sigencode=util.sigencode_string, k=(k % (n - 1)) + 1)
+                ver.append((ev("accept", tag + "sign (string, k given) -> library and OpenSSL verify", "accept", None), hname, cv,
+                            eclib.der_sig(int.from_bytes(sig2[:L], "big"), int.from_bytes(sig2[L:], "big")), vk, H, util.sigdecode_der))
+            except Exception as e:
+                ev("flags", tag + "sign raised " + eclib.mro(e), [0], [], type(e).__name__)
+            ver.append((ev("accept", tag + "OpenSSL signs -> library (key loaded from DER) and OpenSSL verify", "accept", None), hname, cv,
+                        osig[(cv.name, hname)], "load", H, util.sigdecode_der))
+    # library verdicts in the same sequence, then the OpenSSL answers
+    for e, hname, cv, sig, vk, H, dec in ver:
+        try:
+            if vk == "load":
+                vk = keys.VerifyingKey.from_der(open(pub[cv.name], "rb").read())
+            ok = vk.verify(sig, msg, hashfunc=H, sigdecode=dec)
+            e["lib"], e["cls"] = ("accept" if ok is True else "reject"), ""
+        except Exception as ex:
+            e["lib"], e["cls"] = "reject", type(ex).__name__
+    uq = sorted({(cv.name, k) for _, cv, k, _ in det})
+    byname = {c.name: c for c in cvs}
+    kx = dict(zip(uq, eclib.pmap(lambda q: eclib.ossl_pub_raw(byname[q[0]], q[1])[0], uq, workers=8)))
+    for e, cv, k, h1 in det:
+        n, L = int(cv.order), blen(cv)
+        raw = kx[(cv.name, k)]
+        rr = int.from_bytes(raw[:len(raw) // 2], "big") % n
+        z = int.from_bytes(h1, "big")
+        if len(h1) * 8 > n.bit_length():
+            z >>= len(h1) * 8 - n.bit_length()
+        ss = pow(k, -1, n) * (z + rr * d) % n
+        e["ref"] = list(rr.to_bytes(L, "big") + ss.to_bytes(L, "big"))
+    vq = sorted({(hname, cv.name, bytes(sig)) for _, hname, cv, sig, _, _, _ in ver})
+    va = dict(zip(vq, eclib.pmap(lambda q: eclib.ossl_verify(q[0], pub[q[1]], q[2], msg, files, len(eclib.der_sig(int(byname[q[1]].order), int(byname[q[1]].order)))),
+                                 vq, workers=8)))
+    for e, hname, cv, sig, _, _, _ in ver:
+        e["ref"] = va[(hname, cv.name, bytes(sig))]
+    ncalls += len(uq) + len(vq)
+    return "history%d" % order, evs, ncalls
+
+
 # ====================================================================== the check
 def run(tier):
     import multiprocessing as mp
@@ -399,6 +508,8 @@ def run(tier):
                 tjobs.append((nm, tier, [dd], "d%d" % dd, thorough or i == 1))
         tiny_async = pool.map_async(_record_tiny, tjobs, chunksize=1)
         ora_async = pool.map_async(_oracle_curve, [(i, tier, wd) for i in range(17)], chunksize=1)
+        hpool = ctx.Pool(2, maxtasksperchild=1)          # histories: each in a fresh process of its own
+        hist_async = hpool.map_async(_oracle_history, [(tier, wd, 0), (tier, wd, 1)], chunksize=1)
 
         # ---------------------------------------------------------------- MC while the recorders run
         def mc(job):
@@ -420,9 +531,10 @@ def run(tier):
                     rep.cov["parts"]["selftest MC T17 BadExactAccept"] = "verifier with u1 and u2 exchanged refuted by TLC after %d states" % res.distinct
         try:
             tiny_parts = tiny_async.get(timeout=2400)
-            ora = ora_async.get(timeout=3000)
+            ora = list(ora_async.get(timeout=3000)) + list(hist_async.get(timeout=3000))
         finally:
             pool.terminate()
+            hpool.terminate()
 
         tiny = {}
         for nm, part, evs in tiny_parts:
